@@ -45,7 +45,9 @@ class SimFile(object):
             raise TypeError("write() argument must be str, not %s" % type(s).__name__)
         self.buf += s
         if len(self.buf) >= BUFSIZE:
-            self._flush(may_fail=True)
+            # (storage errors are injected at explicit flush()/fsync() calls only: what a failing implicit flush
+            # inside write() leaves in the text layer's and the buffered writer's buffers is not modelled)
+            self._flush()
         return len(s)
 
     def _flush(self, may_fail=False):
